@@ -251,6 +251,20 @@ commonreal(struct expr **e1, struct expr **e2)
 	return t;
 }
 
+/* size of the object type t as an expression: a run-time value for variable length arrays */
+static struct expr *
+mksizeexpr(struct type *t)
+{
+	struct expr *e;
+
+	if (t->kind == TYPEARRAY && t->size == 0 && t->prop & PROPVM) {
+		e = mkexpr(EXPRSIZEOF, &typeulong, NULL);
+		e->u.szof.type = t;
+		return e;
+	}
+	return mkconstexpr(&typeulong, t->size);
+}
+
 static struct expr *
 mkbinaryexpr(struct location *loc, enum tokenkind op, struct expr *l, struct expr *r)
 {
@@ -330,7 +344,7 @@ mkbinaryexpr(struct location *loc, enum tokenkind op, struct expr *l, struct exp
 		t = l->type;
 		if (t->base->incomplete || t->base->kind == TYPEFUNC)
 			error(loc, "pointer operand to '+' must be to complete object type");
-		r = mkbinaryexpr(loc, TMUL, exprconvert(r, &typeulong), mkconstexpr(&typeulong, t->base->size));
+		r = mkbinaryexpr(loc, TMUL, exprconvert(r, &typeulong), mksizeexpr(t->base));
 		break;
 	case TSUB:
 		if (lp & PROPARITH && rp & PROPARITH) {
@@ -343,14 +357,14 @@ mkbinaryexpr(struct location *loc, enum tokenkind op, struct expr *l, struct exp
 			error(loc, "pointer operand to '-' must be to complete object type");
 		if (rp & PROPINT) {
 			t = l->type;
-			r = mkbinaryexpr(loc, TMUL, exprconvert(r, &typeulong), mkconstexpr(&typeulong, t->base->size));
+			r = mkbinaryexpr(loc, TMUL, exprconvert(r, &typeulong), mksizeexpr(t->base));
 		} else {
 			if (!typecompatible(l->type->base, r->type->base))
 				error(&tok.loc, "pointer operands to '-' are to incompatible types");
 			op = TDIV;
 			t = &typelong;
 			e = mkbinaryexpr(loc, TSUB, exprconvert(l, &typelong), exprconvert(r, &typelong));
-			r = mkconstexpr(&typelong, l->type->base->size);
+			r = exprconvert(mksizeexpr(l->type->base), &typelong);
 			l = e;
 		}
 		break;
